@@ -80,7 +80,7 @@ CHECKS["C10"] = dict(
 CHECKS["C14"] = dict(
     category="model_checking",
     technique="exhaustive configuration/timing grid of the real heartbeat task under virtual time, with deviation-bounded schedule exploration (DX) on the small configurations",
-    text="Real client session (started the way client.rs does) against a scripted peer over pipes with one-way latency: interval x timeout (whole seconds incl. T<I and T=I) x round trip {0, 2 ms, T/2, T-2 ms} x silence instant {never, from the start, before/after response k=1..3} x {idle, stream traffic every I/3}; is_closed sampled every 50 ms of virtual time up to 20*max(I,T). Healthy peers must never be closed; silent peers must be closed, with the blocked reader released, by last answer + T + I. Also peers that keep talking (stream data, their own keep-alive requests, padding frames every I/4) whether or not they answer: only answers count. Plus black-holing peers with an upload in progress, the largest accepted values (u64::MAX s), and a client-level real-time part: sessions created by the real Client with 2 (4) interval/timeout pairs against a scripted TLS server that falls silent (request spacing = interval, close between timeout and timeout + interval after the last answer).",
+    text="Real client session (started the way client.rs does) against a scripted peer over pipes with one-way latency: interval x timeout (whole seconds incl. T<I and T=I) x round trip {0, 2 ms, T/2, T-2 ms} x silence instant {never, from the start, before/after response k=1..3} x {idle, stream traffic every I/3}; is_closed sampled every 50 ms of virtual time up to 20*max(I,T). Healthy peers must never be closed; silent peers must be closed, with the blocked reader released, by last answer + T + I. Also peers that keep talking (stream data, their own keep-alive requests, padding frames every I/4) whether or not they answer: only answers count. A narrow uplink (16 bytes in flight) with 200 bytes of padding behind every payload: the request is answered while the monitor's write is still in progress (<= 1 (2) deviations). Plus black-holing peers with an upload in progress, the largest accepted values (u64::MAX s), and a client-level real-time part: sessions created by the real Client with 2 (4) interval/timeout pairs against a scripted TLS server that falls silent (request spacing = interval, close between timeout and timeout + interval after the last answer).",
     note="Trusted: scripted peer answers immediately (delay = pipe latency); virtual clock; sampling step 50 ms. The T<I class was a known finding and is fixed (56bf550); no C14 key is listed as open.",
     design="DESIGN.md §6 C14",
 )
